@@ -32,11 +32,11 @@ var Prop = &engine.Prop{
 		"multi-key calls use duplicate-free sub-sequences of one global key order (the property's domain)",
 		"admission order among waiters is not judged (sync.RWMutex decides it)",
 	},
-	ShardsQuick: 8, ShardsThorough: 16,
+	ShardsQuick: 8, ShardsThorough: 32,
 	Setup: func(c *engine.Ctx) { Q = engine.NewQuiescer() },
 	Kinds: []engine.Kind{
-		{Name: "sched", Quick: 12000, Thorough: 400000, Fn: schedCase},
-		{Name: "stress", Quick: 16, Thorough: 480, Repeat: 20, Fn: stressCase},
+		{Name: "sched", Quick: 12000, Thorough: 800000, Fn: schedCase},
+		{Name: "stress", Quick: 16, Thorough: 960, Repeat: 20, Fn: stressCase},
 	},
 	Floors: map[string]int64{
 		"pending_observations": 500,
